@@ -28,6 +28,9 @@ var universe = [][]pcPair{
 	{{"test/echo", ""}},
 	{{"test/echo", "bucket-a"}},
 	{{"test/echo", "bucket-b"}},
+	{{"test/echo", "bucket-ab"}},
+	{{"test/echo2", "bucket-a"}},
+	{{"test/echo2", ""}},
 }
 
 func pickPC(rng *rand.Rand) pcPair {
@@ -153,6 +156,166 @@ func GenScenario(rng *rand.Rand, multiOwner bool) *Scenario {
 	return s
 }
 
+// variantOf returns a request that differs from d ONLY in the context (two out
+// of three) or ONLY in the protocol id: the empty context against a non-empty
+// one, a context that extends / shortens the other, another context of the same
+// length; an id that extends / shortens the other. Constraints are kept, so the
+// two requests are as similar as two different solicitations can be.
+func variantOf(rng *rand.Rand, d DirSpec) DirSpec {
+	v := d
+	if rng.IntN(3) < 2 {
+		var cands []string
+		if d.C != "" {
+			cands = append(cands, "", "", "", d.C+"b", d.C[:len(d.C)-1], "bucket-b", "\x00")
+		} else {
+			cands = append(cands, "bucket-a", "bucket-a", "bucket-b", "b", "\x00")
+		}
+		for {
+			c := cands[rng.IntN(len(cands))]
+			if c != d.C {
+				v.C = c
+				return v
+			}
+		}
+	}
+	cands := []string{d.P + "2", d.P + "/", "test/echo2"}
+	if len(d.P) > 1 {
+		cands = append(cands, d.P[:len(d.P)-1])
+	}
+	for {
+		q := cands[rng.IntN(len(cands))]
+		if q != d.P {
+			v.P = q
+			return v
+		}
+	}
+}
+
+// benignConstraint: mostly admitting constraints (the variant scenarios are
+// about (protocol id, context), not about constraints).
+func benignConstraint(rng *rand.Rand, links int) (int, int) {
+	if rng.IntN(5) == 0 {
+		return randConstraint(rng, links)
+	}
+	p := PeerNone
+	if rng.IntN(3) == 0 {
+		p = PeerRight
+	}
+	t := TptNone
+	if rng.IntN(5) == 0 {
+		t = TptLink1
+	}
+	return p, t
+}
+
+// GenVariantScenario draws a scenario around requests on ONE bus that differ
+// only in the context or only in the protocol id, in both registration orders
+// (static scenarios register a node's requests in list order; dynamic ones in
+// Scenario.Order), while the other node solicits the first, the second, both or
+// neither of them. The harness judges every request by its own (p, c).
+func GenVariantScenario(rng *rand.Rand) *Scenario {
+	s := &Scenario{Links: 1 + rng.IntN(2), SwapIDs: rng.IntN(2) == 0}
+	pool := []pcPair{{"test/echo", ""}, {"test/echo", "bucket-a"}, {"test/echo", "bucket-b"}, {"test/echo", "bucket-ab"}, {"dex/v1", "bucket"}, {"test/echo2", "bucket-a"}, {"ab", "c"}, {"x", "\x00y"}}
+	var pairsSeen []pcPair
+	for n := 0; n < 2; n++ {
+		if n == 1 && rng.IntN(2) == 0 {
+			break
+		}
+		x := pool[rng.IntN(len(pool))]
+		pc, tc := benignConstraint(rng, s.Links)
+		d := DirSpec{x.p, x.c, pc, tc}
+		v := variantOf(rng, d)
+		k := 1
+		if rng.IntN(4) == 0 {
+			k = 2 // a chain of three: d, v, variant of v
+		}
+		list := []DirSpec{d, v}
+		if k == 2 {
+			list = append(list, variantOf(rng, v))
+		}
+		rng.Shuffle(len(list), func(i, j int) { list[i], list[j] = list[j], list[i] })
+		for _, e := range list {
+			s.Dirs[n] = addDir(s.Dirs[n], e)
+			pairsSeen = append(pairsSeen, pcPair{e.P, e.C})
+		}
+		if rng.IntN(3) == 0 { // an unrelated request in between / around
+			y := pickPC(rng)
+			p2, t2 := randConstraint(rng, s.Links)
+			e := DirSpec{y.p, y.c, p2, t2}
+			at := rng.IntN(len(s.Dirs[n]) + 1)
+			dup := false
+			for _, o := range s.Dirs[n] {
+				if o.P == e.P && o.C == e.C && o.Peer == e.Peer {
+					dup = true
+				}
+			}
+			if !dup {
+				s.Dirs[n] = append(s.Dirs[n][:at], append([]DirSpec{e}, s.Dirs[n][at:]...)...)
+			}
+		}
+	}
+	// the other side(s): each node additionally solicits a PRNG subset of the
+	// pairs seen on the other node
+	for n := 0; n < 2; n++ {
+		for _, x := range pairsSeen {
+			onOther := false
+			for _, o := range s.Dirs[1-n] {
+				if o.P == x.p && o.C == x.c {
+					onOther = true
+				}
+			}
+			if !onOther || rng.IntN(2) == 0 {
+				continue
+			}
+			has := false
+			for _, o := range s.Dirs[n] {
+				if o.P == x.p && o.C == x.c {
+					has = true
+				}
+			}
+			if has {
+				continue
+			}
+			p2, t2 := benignConstraint(rng, s.Links)
+			s.Dirs[n] = addDir(s.Dirs[n], DirSpec{x.p, x.c, p2, t2})
+		}
+	}
+	for n := 0; n < 2; n++ {
+		if len(s.Dirs[n]) == 0 {
+			y := pairsSeen[rng.IntN(len(pairsSeen))]
+			s.Dirs[n] = append(s.Dirs[n], DirSpec{y.p, y.c, PeerNone, TptNone})
+		}
+	}
+	if rng.IntN(2) == 0 {
+		s.Dirs[0], s.Dirs[1] = s.Dirs[1], s.Dirs[0]
+	}
+	return s
+}
+
+// contextOrIDVariants counts pairs of requests on one node that differ only in
+// the context or only in the protocol id (same constraints).
+func (s *Scenario) contextOrIDVariants() (ctxOnly, idOnly, withEmptyCtx int) {
+	for n := 0; n < 2; n++ {
+		for i, a := range s.Dirs[n] {
+			for _, b := range s.Dirs[n][i+1:] {
+				if a.Peer != b.Peer || a.Tpt != b.Tpt {
+					continue
+				}
+				switch {
+				case a.P == b.P && a.C != b.C:
+					ctxOnly++
+					if a.C == "" || b.C == "" {
+						withEmptyCtx++
+					}
+				case a.P != b.P && a.C == b.C:
+					idOnly++
+				}
+			}
+		}
+	}
+	return
+}
+
 // scenario statistics used for the non-triviality rule
 func (s *Scenario) stats() (expected, refusedOverlap int) {
 	for n := 0; n < 2; n++ {
@@ -164,7 +327,7 @@ func (s *Scenario) stats() (expected, refusedOverlap int) {
 				}
 				// an overlap that must be refused: other side has same p||c
 				for _, o := range s.Dirs[1-n] {
-					if o.P+o.C == d.P+d.C {
+					if o.P+o.C == d.P+d.C || (o.P == d.P && o.C != d.C) {
 						refusedOverlap++
 						break
 					}
@@ -306,7 +469,7 @@ func acceptAllSequential(t *TwoNode, n *Node) (byDir map[int][]*StreamRec, unatt
 // RunTwoNodeC30 is the two-node part of C30.
 func RunTwoNodeC30(r *vf.Run) {
 	rng := r.Rand("c30-two-node")
-	n := r.N(96, 1500)
+	n := r.N(144, 2000)
 	scens := make([]*Scenario, 0, n)
 	// the design's witness first: ("ab","c") on one side, ("a","bc") on the other
 	scens = append(scens,
@@ -314,8 +477,27 @@ func RunTwoNodeC30(r *vf.Run) {
 		&Scenario{Links: 2, SwapIDs: true, Dirs: [2][]DirSpec{{{"ab", "c", PeerNone, TptLink1}, {"test/echo", "", PeerRight, TptNone}}, {{"ab", "c", PeerNone, TptLink2}, {"test/echo", "", PeerNone, TptNone}}}},
 		&Scenario{Links: 1, Dirs: [2][]DirSpec{{{"test/echo", "bucket-a", PeerWrong, TptNone}, {"dex/v1", "bucket", PeerRight, TptLink1}}, {{"test/echo", "bucket-a", PeerNone, TptNone}, {"dex/v1", "bucket", PeerNone, TptNone}}}},
 	)
+	// requests on one bus that differ only in the context (incl. the empty one) or
+	// only in the protocol id, registered in either order; the other node solicits
+	// one of them. Every request is judged by its own (p, c).
+	for _, first := range []int{0, 1} {
+		for _, pr := range [][2]DirSpec{
+			{{"test/echo", "bucket-a", PeerNone, TptNone}, {"test/echo", "", PeerNone, TptNone}},
+			{{"test/echo", "bucket-a", PeerNone, TptNone}, {"test/echo2", "bucket-a", PeerNone, TptNone}},
+		} {
+			a, b := pr[first], pr[1-first]
+			// the remote node solicits only the FIRST registered request's pair
+			scens = append(scens, &Scenario{Links: 1, SwapIDs: first == 1, Dirs: [2][]DirSpec{{a, b}, {{a.P, a.C, PeerNone, TptNone}}}})
+		}
+	}
+	nFixed := len(scens)
 	for len(scens) < n {
-		sc := GenScenario(rng, false)
+		var sc *Scenario
+		if (len(scens)-nFixed)%4 == 1 {
+			sc = GenVariantScenario(rng)
+		} else {
+			sc = GenScenario(rng, false)
+		}
 		if len(scens)%3 == 2 {
 			// dynamic: links first, directives registered one by one in a PRNG order
 			sc.Dynamic = true
@@ -341,6 +523,12 @@ func RunTwoNodeC30(r *vf.Run) {
 		if exp > 0 && refused > 0 {
 			r.Count("two_node_scenarios_nontrivial", 1)
 		}
+		if co, io, we := s.contextOrIDVariants(); co+io > 0 {
+			r.Count("two_node_scenarios_with_requests_differing_only_in_context_or_id", 1)
+			r.Count("two_node_request_pairs_differing_only_in_context", co)
+			r.Count("two_node_request_pairs_differing_only_in_context_one_empty", we)
+			r.Count("two_node_request_pairs_differing_only_in_protocol_id", io)
+		}
 		r.Count("two_node_streams_opened", len(t.Streams()))
 		for ni := 0; ni < 2; ni++ {
 			node := t.Nodes[ni]
@@ -351,6 +539,24 @@ func RunTwoNodeC30(r *vf.Run) {
 				got := map[int]int{}
 				for _, rec := range byDir[di] {
 					got[rec.Link]++
+				}
+				// a request that the bus de-duplicated onto an earlier, DIFFERENT request
+				// is judged like any other; the witness class names the merge
+				mergedCls := ""
+				if o, ok := node.MergedWith(di); ok {
+					r.Count("two_node_requests_merged_by_the_bus", 1)
+					if od := s.Dirs[ni][o]; od.P != d.P || od.C != d.C {
+						switch {
+						case od.P == d.P && (od.C == "" || d.C == ""):
+							mergedCls = "merged-onto-request-with-other-context/empty-vs-non-empty"
+						case od.P == d.P:
+							mergedCls = "merged-onto-request-with-other-context"
+						case od.C == d.C:
+							mergedCls = "merged-onto-request-with-other-protocol-id"
+						default:
+							mergedCls = "merged-onto-request-with-other-id-and-context"
+						}
+					}
 				}
 				for li := 0; li < s.Links; li++ {
 					want := s.Expected(ni, di, li)
@@ -379,6 +585,8 @@ func RunTwoNodeC30(r *vf.Run) {
 							}
 						}
 						switch {
+						case mergedCls != "":
+							cls = mergedCls
 						case shiftedAdmitting && s.Admits(d, li):
 							cls = "boundary-shift"
 						case samePC || !s.Admits(d, li):
@@ -386,7 +594,7 @@ func RunTwoNodeC30(r *vf.Run) {
 						}
 						r.Violation("two-node/unexpected-match/"+cls,
 							"a SolicitProtocol directive received a stream although the other side has no solicitation with the same (protocol id, context) admitting this link",
-							map[string]any{"scenario": s, "node": ni, "directive": d, "link": li + 1, "other_side": s.Dirs[1-ni]})
+							map[string]any{"scenario": s, "node": ni, "directive": d, "link": li + 1, "other_side": s.Dirs[1-ni], "same_side": s.Dirs[ni]})
 					case want && got[li] == 0:
 						if !s.MustHave(ni, di, li) {
 							// dynamic scenario, directive registered after another local one
@@ -399,7 +607,11 @@ func RunTwoNodeC30(r *vf.Run) {
 							r.Count("two_node_undecided_missing", 1)
 							continue
 						}
-						r.Violation("two-node/missing-match",
+						mkey := "two-node/missing-match"
+						if mergedCls != "" {
+							mkey += "/" + mergedCls
+						}
+						r.Violation(mkey,
 							"both sides solicit the same (protocol id, context) and both constraints admit the link, but at quiescence the directive has no value for it",
 							map[string]any{"scenario": s, "node": ni, "directive": d, "link": li + 1, "other_side": s.Dirs[1-ni], "values_at_node": len(node.Values()), "streams": len(t.Streams())})
 					}
